@@ -73,6 +73,10 @@ def systematic(tier):
     for outcome in ('value', 'exc', 'factory_raises'):
         cases.append({'adapter': 'create_task', 'awaits': [0, 1], 'outcome': outcome, 'others': 1})
         cases.append({'adapter': 'create_task', 'awaits': [0, 1], 'outcome': outcome, 'others': 1, 'from_thread': True})
+    for kind in ('rpc', 'task', 'broadcast'):
+        for outcome in ('value', 'exc'):
+            cases.append({'adapter': 'loop_comm', 'kind': kind, 'outcome': outcome, 'awaits': [0, 1]})
+    cases.append({'adapter': 'loop_comm', 'kind': 'broadcast', 'outcome': 'value', 'awaits': [], 'filtered': True})
     for scenario in ('run', 'run_raises', 'run_twice', 'cancel_run', 'run_cancel', 'run_raises_twice', 'run_interrupted_twice'):
         cases.append({'adapter': 'action', 'scenario': scenario})
     _sys_cache['all'] = cases
@@ -80,7 +84,12 @@ def systematic(tier):
 
 
 def random_case(rng, tier):
-    adapter = rng.choice(['plum_kiwi', 'plum_kiwi', 'kiwi', 'rpc_reply', 'rpc_reply', 'create_task', 'action'])
+    adapter = rng.choice(['plum_kiwi', 'plum_kiwi', 'kiwi', 'rpc_reply', 'rpc_reply', 'create_task', 'action', 'loop_comm'])
+    if adapter == 'loop_comm':
+        kind = rng.choice(['rpc', 'task', 'broadcast'])
+        return {'adapter': 'loop_comm', 'kind': kind, 'outcome': rng.choice(['value', 'exc']),
+                'awaits': [rng.choice([0, 0.5, 1]) for _ in range(rng.randint(0, 3))],
+                'filtered': kind == 'broadcast' and rng.random() < 0.4}
     if adapter == 'action':
         return {'adapter': 'action', 'scenario': rng.choice(['run', 'run_raises', 'run_twice', 'cancel_run', 'run_cancel',
                                                              'run_raises_twice', 'run_interrupted_twice'])}
@@ -135,6 +144,8 @@ def run(case):
             _run_action(case, plumpy, result, events)
         elif adapter == 'create_task':
             _run_create_task(case, plumpy, loop, result, events)
+        elif adapter == 'loop_comm':
+            _run_loop_comm(case, plumpy, loop, result, events)
         else:
             _run_chain(case, plumpy, loop, result, events)
         for context in loop.exc_contexts:
@@ -319,6 +330,68 @@ def _run_create_task(case, plumpy, loop, result, events):
                                                              and future.exception() is boom):
         result.violate('wrong_outcome' if got[0] != 'pending' else 'not_completed', f'create_task:{case["outcome"]}',
                        f'got {got!r}')
+
+
+def _run_loop_comm(case, plumpy, loop, result, events):
+    """plumpy's LoopCommunicator around the simulated transport: a coroutine subscriber (rpc / task / broadcast) is called
+    from the communicator's thread, runs on the loop, and its outcome comes back through the reply future."""
+    transport = comm.SimCommunicator(loop)
+    wrapped = plumpy.wrap_communicator(transport, loop)
+    boom = Boom('subscriber')
+    kind = case['kind']
+    result.counters[f'loop_comm:{kind}:{case["outcome"]}'] += 1
+    result.nontrivial = True
+    calls = []
+
+    async def subscriber(_comm, *args, **kwargs):
+        calls.append((args, sorted(kwargs)))
+        events.append(('subscriber', 'start', len(calls)))
+        for duration in case['awaits']:
+            await asyncio.sleep(duration)
+            events.append(('subscriber', 'woke', loop.time()))
+        if case['outcome'] == 'exc':
+            raise boom
+        return ('answer', len(case['awaits']))
+
+    reply = None
+    with loop.running():
+        if kind == 'rpc':
+            wrapped.add_rpc_subscriber(subscriber, 'target')
+            reply = transport.rpc_send('target', {'q': 1})
+        elif kind == 'task':
+            wrapped.add_task_subscriber(subscriber)
+            reply = transport.task_send({'job': 1})
+        else:
+            if case.get('filtered'):
+                # (kiwipy's filter calls its subscriber synchronously: a plain function, as Process.broadcast_receive is)
+                def plain(_comm, *args, **kwargs):
+                    calls.append((args, sorted(kwargs)))
+                    events.append(('subscriber', 'plain', len(calls)))
+
+                wrapped.add_broadcast_subscriber(kiwipy.BroadcastFilter(plain, subject='wanted.*'))
+            else:
+                wrapped.add_broadcast_subscriber(subscriber)
+            transport.broadcast_send({'b': 1}, sender='someone', subject='wanted.now')
+            if case.get('filtered'):
+                transport.broadcast_send({'b': 2}, sender='someone', subject='other')
+        while loop.step_once():
+            pass
+        transport.net.flush()
+        while loop.step_once():
+            pass
+    if loop.thread_violations:
+        result.violate('thread_unsafe_scheduling', f'loop_comm:{kind}', f'subscriber scheduled from the communicator\'s thread '
+                                                                        f'through {loop.thread_violations[:2]}')
+    if len(calls) != 1:
+        result.violate('wrong_outcome', f'loop_comm:{kind}:calls', f'the subscriber coroutine ran {len(calls)} times '
+                                                                   f'(loop exception contexts: {loop.exc_contexts[:1]})')
+    if reply is not None:
+        got = comm.unwrap(reply)
+        events.append(('final', got[0]))
+        if case['outcome'] == 'value' and got != ('value', ('answer', len(case['awaits']))):
+            result.violate('wrong_outcome' if got[0] != 'pending' else 'not_completed', f'loop_comm:{kind}:value', f'got {got!r}')
+        if case['outcome'] == 'exc' and not (got[0] == 'exception' and ('subscriber' in got[2] or got[1] == 'Boom')):
+            result.violate('wrong_outcome' if got[0] != 'pending' else 'not_completed', f'loop_comm:{kind}:exc', f'got {got!r}')
 
 
 def _run_action(case, plumpy, result, events):
